@@ -2816,3 +2816,114 @@ def slice_binary_search(ex, m, a, fr, dest):
     if c == 0:
         return ok(base)
     return err(base + (1 if c < 0 else 0))
+
+
+@model(r'(?:core|std)::num::<impl (\w+)>::(rem_euclid|div_euclid|abs|signum|min|max)|(i8|i16|i32|i64|isize|u8|u16|u32|u64|usize)::(rem_euclid|div_euclid|abs|signum)')
+def int_misc_op(ex, m, a, fr, dest):
+    ty = m.group(1) or m.group(3)
+    op = m.group(2) or m.group(4)
+    if ty not in INT_BITS:
+        return NotImplemented
+    x = a[0]
+    if op in ('rem_euclid', 'div_euclid'):
+        d = a[1]
+        if not ex.branch(b_not(eq(d, 0)), 'euclid divisor non-zero'):
+            raise Panic('attempt to calculate the remainder with a divisor of zero', fr.name if fr else None)
+        if is_sym(x) or is_sym(d):
+            # Euclidean division: 0 <= r < |d|, x = q*d + r  (z3's integer div/mod are Euclidean for positive and negative divisors)
+            q, r = zint(x) / zint(d), zint(x) % zint(d)
+            return r if op == 'rem_euclid' else q
+        r = x % abs(d)
+        return r if op == 'rem_euclid' else (x - r) // d
+    if op == 'abs':
+        return ite(b_lt(x, 0), -x, x) if is_sym(x) else abs(x)
+    if op == 'signum':
+        return ite(b_lt(x, 0), -1, ite(b_lt(0, x), 1, 0)) if is_sym(x) else (x > 0) - (x < 0)
+    y = a[1]
+    if op == 'min':
+        return ite(b_lt(y, x), y, x) if (is_sym(x) or is_sym(y)) else min(x, y)
+    return ite(b_lt(x, y), y, x) if (is_sym(x) or is_sym(y)) else max(x, y)
+
+
+@model(r'(?:std::result::)?Result::<.*>::map_or::<.*>')
+def res_map_or(ex, m, a, fr, dest):
+    o = a[0]
+    if o.variant == 0:
+        return ex.call_closure(a[2], [o.fields[0]])
+    return a[1]
+
+
+@model(r'(?:std::result::)?Result::<.*>::map_or_else::<.*>')
+def res_map_or_else(ex, m, a, fr, dest):
+    o = a[0]
+    if o.variant == 0:
+        return ex.call_closure(a[2], [o.fields[0]])
+    return ex.call_closure(a[1], [o.fields[0]])
+
+
+@model(r'(?:std::result::)?Result::<.*>::(unwrap_or_default|unwrap_or_else)(?:::<.*>)?')
+def res_unwrap_or_x(ex, m, a, fr, dest):
+    o = a[0]
+    if o.variant == 0:
+        return o.fields[0]
+    if m.group(1) == 'unwrap_or_else':
+        return ex.call_closure(a[1], [o.fields[0]])
+    raise Unsupported('Result::unwrap_or_default of Err')
+
+
+@model(r'(?:core|std|alloc)::str::<impl str>::contains::<fn\(char\) -> bool.*>|(?:core|std|alloc)::str::<impl str>::contains::<\{closure.*>')
+def str_contains_pred(ex, m, a, fr, dest):
+    s = as_symstr(deref(a[0]))
+    out = False
+    for i in range(len(s.chars)):
+        if is_sym(s.n) or i < s.n:
+            hit = ex.call_closure(a[1], [s.chars[i]])
+            out = b_or(out, b_and(b_lt(i, s.n), hit))
+    return out
+
+
+@model(r'(?:std::path::)?Path::parent')
+def path_parent(ex, m, a, fr, dest):
+    s = str_simplify(path_str(a[0]))
+    if not isinstance(s, str):
+        raise Unsupported('Path::parent of a symbolic path')
+    t = s.rstrip('/')
+    if t == '' or '/' not in t:
+        return none() if t == '' else some(PathV(''))
+    par = t.rsplit('/', 1)[0]
+    return some(PathV(par if par else '/'))
+
+
+@model(r'(?:std::path::)?Path::file_name')
+def path_file_name(ex, m, a, fr, dest):
+    s = str_simplify(path_str(a[0]))
+    if not isinstance(s, str):
+        raise Unsupported('Path::file_name of a symbolic path')
+    t = s.rstrip('/')
+    if t == '' or t.endswith('..'):
+        return none()
+    return some(t.rsplit('/', 1)[-1])
+
+
+@model(r'(?:std::ffi::)?(?:OsString|OsStr)::as_encoded_bytes|(?:std::ffi::)?os_str::<impl .*>::as_encoded_bytes|(?:std::ffi::)?OsStr::as_bytes|<(?:std::ffi::)?OsStr as (?:std::os::unix::ffi::)?OsStrExt>::as_bytes')
+def osstr_bytes(ex, m, a, fr, dest):
+    return StrBytes(as_symstr(deref(a[0])))
+
+
+@model(r'(?:core|std|alloc)::slice::<impl \[u8\]>::(starts_with|ends_with)')
+def bytes_starts_with(ex, m, a, fr, dest):
+    x, y = deref(a[0]), deref(a[1])
+
+    def as_s(v):
+        if isinstance(v, StrBytes):
+            return v.s
+        if isinstance(v, BytesLit):
+            return SymStr.lit(bytes(v.data).decode('utf-8', 'replace'))
+        raise Unsupported('byte slice %r' % (v,))
+    sx, sy = as_s(x), as_s(y)
+    if m.group(1) == 'starts_with':
+        return str_starts_with(sx, sy)
+    cx, cy = sx.concrete(), sy.concrete()
+    if cx is None or cy is None:
+        raise Unsupported('symbolic byte ends_with')
+    return cx.endswith(cy)
